@@ -166,6 +166,10 @@ func (u *Unmarshaler) fillSlice(fieldType reflect.Type, value reflect.Value, map
 	dereffedBaseType := Deref(baseType)
 	dereffedBaseKind := dereffedBaseType.Kind()
 	refValue := reflect.ValueOf(mapValue)
+	if refValue.Kind() != reflect.Slice {
+		// 文档中的值不是数组（如嵌套切片/切片字典里混入了标量或对象）
+		return errTypeMismatch
+	}
 	if refValue.IsNil() {
 		return nil
 	}
@@ -187,7 +191,11 @@ func (u *Unmarshaler) fillSlice(fieldType reflect.Type, value reflect.Value, map
 		switch dereffedBaseKind {
 		case reflect.Struct:
 			target := reflect.New(dereffedBaseType)
-			if err := u.Unmarshal(ithValue.(map[string]any), target.Interface()); err != nil {
+			ithMap, ok := ithValue.(map[string]any)
+			if !ok {
+				return errTypeMismatch
+			}
+			if err := u.Unmarshal(ithMap, target.Interface()); err != nil {
 				return err
 			}
 
@@ -515,7 +523,12 @@ func (u *Unmarshaler) processFieldNotFromString(fieldType reflect.Type, value re
 	case valueKind == reflect.String && typeKind == reflect.Slice:
 		return u.fillSliceFromString(fieldType, value, mapValue)
 	case valueKind == reflect.String && derefedFieldType == durationType:
-		return fillDurationValue(fieldType.Kind(), value, mapValue.(string))
+		// json.Number 的 Kind 也是 String：只有真正的字符串才按时长文本解析
+		if dur, ok := mapValue.(string); ok {
+			return fillDurationValue(fieldType.Kind(), value, dur)
+		}
+
+		return u.processFieldPrimitive(fieldType, value, mapValue, opts, fullName)
 	default:
 		return u.processFieldPrimitive(fieldType, value, mapValue, opts, fullName)
 	}
